@@ -147,6 +147,9 @@ class Impl(BaseImpl):
         self.allow_none = None
         self._doc = doc
 
+    def set_allow_none(self, value):
+        self.allow_none = value
+
     def get_property(self, name):
         prop = getattr(self, name)
         if prop is None:
@@ -518,7 +521,7 @@ class Interface:
 
     @allow_none.setter
     def allow_none(self, value):
-        self._impl.allow_none = value if value is None else bool(value)
+        self._impl.set_allow_none(value if value is None else bool(value))
 
     # ----------------------------------------------------------------------
     # Override base class methods
